@@ -175,8 +175,8 @@ func (p *Program) verifyFunctionWith(cs *ContractSet, ct *Contract, findings map
 		res.Axioms = append(res.Axioms, n)
 	}
 	res.Paths = ex.paths + 1
-	res.Prelude = ex.u.Prelude() + ex.implAxioms()
-	res.Decls = ex.decls
+	res.Prelude = ex.u.Prelude()
+	res.Decls = append(ex.decls, strings.Split(strings.TrimSpace(ex.implAxioms()), "\n")...)
 	return res
 }
 
